@@ -1,3 +1,364 @@
-/-! # C08 — property theorems (to be written) -/
+import BddVerif.Core.Canon
+import BddVerif.Lemmas.IterSat
+import BddVerif.Lemmas.IterDnf
+import BddVerif.Lemmas.IterRedB
+/-!
+# C08 — enumeration yields exactly the satisfying valuations and paths, once each
+
+Property theorems about the model `Model/Iter.lean` (helper lemmas in `Lemmas/Iter*.lean`).
+Throughout, `A` is a reduced array over `n` variables (`Red A n`, what every operation of the library
+returns for a non-false function) or the one-node array of the constant false (`false_constant`).
+
+* specification level: `paths_partition`, `extensions_spec`, `sat_valuations_spec`;
+* the step functions compute the specifications: `val_next_spec`, `clause_vals_iter_eq`,
+  `clause_vals_new_panics`, `path_iter_eq`, `to_dnf_eq_paths`, `to_dnf_eq_sat_clauses`, `sat_iter_eq`;
+* owned variants: `owned_returns_bdd`, `owned_same_sequences`; error branches: `clause_vals_new_panics`,
+  `path_iter_redundant_panics`; the constant false: `false_constant`.
+-/
 namespace B.Props.C08
+open B B.Iter
+
+/-- The clauses of `paths` below any pointer of a reduced array (with the literals `acc` chosen above,
+    all positions from the variable of `p` on still free): they have length `n`, are pairwise disjoint
+    (no valuation satisfies two of them — in particular no clause occurs twice), a valuation satisfies
+    one of them iff it satisfies `acc` and the function of `p`, and there is a clause unless `p = 0`
+    (a reduced node never has two zero children, so no path is a dead end). -/
+theorem paths_partition {A : Arr} {n : Nat} (h : Red A n) (p : Nat) (hp : p < A.size) (acc : PV)
+    (hlen : acc.length = n) (hfree : Free acc (varOf A n p)) :
+    (∀ c, c ∈ paths A p acc → c.length = n) ∧
+    List.Pairwise Disjoint (paths A p acc) ∧
+    (∀ v, (∃ c, c ∈ paths A p acc ∧ Sat c v) ↔ (Sat acc v ∧ ev A v p = true)) ∧
+    (p ≠ 0 → paths A p acc ≠ []) :=
+  ⟨fun c hc => paths_length h p hp acc c hlen hc, paths_disjoint h p hp acc,
+   paths_cover h p hp acc hfree, fun h0 => paths_ne_nil h p hp h0 acc⟩
+
+/-- … for the whole diagram: the clauses of `pathsOf A` partition the satisfying set of `den A`. -/
+theorem paths_partition_root {A : Arr} {n : Nat} (h : Red A n) (hn : numVars A = n) :
+    (∀ c, c ∈ pathsOf A → c.length = n) ∧
+    List.Pairwise Disjoint (pathsOf A) ∧
+    (∀ v, (∃ c, c ∈ pathsOf A ∧ Sat c v) ↔ den A v = true) ∧
+    pathsOf A ≠ [] := by
+  have h2 := h.size2
+  have hr : root A < A.size := by unfold root; omega
+  have hr0 : root A ≠ 0 := by unfold root; omega
+  have hfree : Free (List.replicate n (none : Option Bool)) (varOf A n (root A)) :=
+    fun i _ => pvGet_replicate n i
+  obtain ⟨a, b, c, d⟩ := paths_partition h (root A) hr (List.replicate n none) (by simp) hfree
+  unfold pathsOf den
+  rw [hn]
+  refine ⟨a, b, ?_, d hr0⟩
+  intro v
+  rw [c v]
+  constructor
+  · exact fun x => x.2
+  · exact fun x => ⟨fun i b hi => (by rw [pvGet_replicate] at hi; cases hi), x⟩
+
+/-- `extensions c` is exactly the set of total valuations of the same length that agree with the clause,
+    in strictly increasing order (variable 0 least significant), hence each once, 2^k of them. -/
+theorem extensions_spec (c : PV) :
+    (∀ w, w ∈ extensions c ↔ (w.length = c.length ∧ Sat c (valOf w))) ∧
+    List.Pairwise (fun a b => leNum a < leNum b) (extensions c) ∧
+    (extensions c).Nodup ∧
+    (extensions c).length = 2 ^ freeCount c :=
+  ⟨fun w => (mem_extensions c w).trans (extendsB_iff c w), extensions_sorted c, extensions_nodup c,
+   extensions_length c⟩
+
+/-- The recursive specification of `sat_valuations` lists every satisfying valuation exactly once and
+    nothing else. -/
+theorem sat_valuations_spec {A : Arr} {n : Nat} (h : Red A n) (hn : numVars A = n) :
+    (satSpec A).Nodup ∧ ∀ w, w ∈ satSpec A ↔ (w.length = n ∧ den A (valOf w) = true) := by
+  obtain ⟨hlen, hdis, hcov, _⟩ := paths_partition_root h hn
+  constructor
+  · unfold satSpec List.Nodup
+    rw [List.pairwise_flatMap]
+    refine ⟨fun c _ => extensions_nodup c, hdis.imp ?_⟩
+    intro c d hcd x hx y hy e
+    subst e
+    have hx' := ((extensions_spec c).1 x).mp hx
+    have hy' := ((extensions_spec d).1 x).mp hy
+    exact hcd (valOf x) ⟨hx'.2, hy'.2⟩
+  · intro w
+    unfold satSpec
+    rw [List.mem_flatMap]
+    constructor
+    · rintro ⟨c, hc, hw⟩
+      have hw' := ((extensions_spec c).1 w).mp hw
+      exact ⟨by rw [hw'.1, hlen c hc], (hcov (valOf w)).mp ⟨c, hc, hw'.2⟩⟩
+    · rintro ⟨hl, hd⟩
+      obtain ⟨c, hc, hs⟩ := (hcov (valOf w)).mpr hd
+      exact ⟨c, hc, ((extensions_spec c).1 w).mpr ⟨by rw [hl, hlen c hc], hs⟩⟩
+
+/-- `BddValuation::next` with fixed clause positions: applied to any extension `u` of the clause (over `n`
+    variables) it returns the successor of `u` in `extensions`, and `None` on the last one; it does not
+    panic. (`extensions` has no duplicates, so the decomposition is unique.) -/
+theorem val_next_spec (clause : PV) (n : Nat) (u : Valn) (hu : u ∈ extensions (pvNorm n clause)) :
+    ∃ pre rest, extensions (pvNorm n clause) = pre ++ u :: rest ∧ valNext u clause = .ok rest.head? := by
+  have hc := chain_extensions (pvGet clause) n 0
+  rw [← pvNorm_eq_range'] at hc
+  exact hc.succ u hu
+
+/-- Collecting `ValuationsOfClauseIterator::new(clause, n)` yields exactly `extensions` of the clause
+    restricted to the `n` variables, provided no position `≥ n` of the clause is `true` (positions `≥ n` that
+    are `false` are ignored by the code); afterwards the iterator answers `None` and stays put. -/
+theorem clause_vals_iter_eq (clause : PV) (n : Nat) (h : NoTrueBeyond n clause) (fuel : Nat)
+    (hf : 2 ^ freeCount (pvNorm n clause) < fuel) :
+    (∃ st, cvNew clause n = .ok st ∧ collect cvNext fuel st = .ok (extensions (pvNorm n clause))) ∧
+    cvNext ⟨none, clause⟩ = .ok (none, ⟨none, clause⟩) := by
+  have hc := chain_extensions (pvGet clause) n 0
+  rw [← pvNorm_eq_range', ← firstN_eq_firstOf] at hc
+  exact ⟨⟨_, cvNew_ok clause n h, collect_chain clause hc fuel (by rw [extensions_length]; exact hf)⟩, rfl⟩
+
+/-- The error branch of `new`: a position `≥ num_vars` set to `true` makes `flip_value` index out of
+    bounds, i.e. `new` panics exactly when `NoTrueBeyond` fails. -/
+theorem clause_vals_new_panics (clause : PV) (n : Nat) :
+    ((cvNew clause n).isPanic = true ↔ ¬ NoTrueBeyond n clause) := by
+  constructor
+  · intro hp hn
+    rw [cvNew_ok clause n hn] at hp
+    simp [Outcome.isPanic] at hp
+  · exact cvNew_panic clause n
+
+/-- `new_unconstrained(n)` (and the deprecated `BddValuationIterator::new(n)`, which wraps it) yields all
+    `2^n` valuations in increasing order; `empty()` yields nothing. -/
+theorem unconstrained_iter_eq (n fuel : Nat) (hf : 2 ^ n < fuel) :
+    collect cvNext fuel (cvUnconstrained n) = .ok (extensions (List.replicate n none)) ∧
+    collect cvNext (fuel + 1) cvEmpty = .ok [] := by
+  constructor
+  · have hc' := chain_extensions (pvGet []) n 0
+    rw [← pvNorm_eq_range', ← firstN_eq_firstOf, firstN_nil, pvNorm_nil] at hc'
+    have hfn : freeCount (List.replicate n (none : Option Bool)) ≤ n := by
+      unfold freeCount
+      calc _ ≤ (List.replicate n (none : Option Bool)).length := List.length_filter_le _ _
+        _ = n := by simp
+    exact collect_chain [] hc' fuel (by
+      rw [extensions_length]
+      exact Nat.lt_of_le_of_lt (Nat.pow_le_pow_right (by omega) hfn) hf)
+  · simp [collect, cvNext, cvEmpty]
+
+/-- `sat_clauses`: unfolding `BddPathIterator::next` from `BddPathIterator::new` yields exactly `paths` of the
+    root (as raw vectors: `paths … []`; as seen over the `n` variables: `pathsOf A`), without panic, and
+    `next` answers `None` exactly on the empty stack, where it stays. -/
+theorem path_iter_eq {A : Arr} {n : Nat} (h : Red A n) (hn : numVars A = n) (fuel : Nat)
+    (hf : (pathsOf A).length < fuel) :
+    pathList A fuel = .ok (paths A (root A) []) ∧
+    (paths A (root A) []).map (pvNorm n) = pathsOf A ∧
+    (∀ S S', pathNext A S = .ok (none, S') → S = [] ∧ S' = []) ∧
+    pathNext A [] = .ok (none, []) := by
+  have h2 := h.size2
+  have hr : root A < A.size := by unfold root; omega
+  have hnorm : (paths A (root A) []).map (pvNorm n) = pathsOf A := by
+    rw [paths_norm h _ hr, pvNorm_nil]; unfold pathsOf; rw [hn]
+  obtain ⟨S, hS, hg, hrem⟩ := pathInit_spec h
+  refine ⟨?_, hnorm, ?_, rfl⟩
+  · unfold pathList
+    rw [hS]
+    simp only []
+    rw [collect_pathNext h fuel S hg (by rw [hrem, ← List.length_map (f := pvNorm n), hnorm]; exact hf), hrem]
+  · intro S S' hS
+    cases S with
+    | nil => simp [pathNext] at hS; exact ⟨rfl, hS⟩
+    | cons t r =>
+      simp only [pathNext] at hS
+      split at hS
+      · split at hS <;> simp at hS
+      all_goals simp at hS
+
+/-- `to_dnf`: with fuel `4 · 2^size` (a crude bound on the number of loop iterations) or more, the
+    explicit-stack loop terminates without panic and its results, seen over the `n` variables, are exactly
+    `pathsOf A`, in the same order. -/
+theorem to_dnf_eq_paths {A : Arr} {n : Nat} (h : Red A n) (hn : numVars A = n) (fuel : Nat)
+    (hf : 4 * 2 ^ A.size ≤ fuel) :
+    ∃ R, toDnf A fuel = .ok R ∧ R.map (pvNorm n) = pathsOf A := by
+  have h2 := h.size2
+  have hr : root A < A.size := by unfold root; omega
+  obtain ⟨k, path', R, hrun, _, hR, hk⟩ := dnfLoop_sub h (root A) hr [] [] [] (fun i _ => pvGet_nil i)
+  have hle : 2 ^ root A ≤ 2 ^ A.size := Nat.pow_le_pow_right (by omega) (by omega)
+  refine ⟨R, ?_, ?_⟩
+  · obtain ⟨f, rfl⟩ : ∃ f, fuel = f + k := ⟨fuel - k, by omega⟩
+    unfold toDnf
+    rw [hrun f, dnfLoop_nil]; simp
+  · rw [hR, paths_norm h _ hr, pvNorm_nil]; unfold pathsOf; rw [hn]
+
+/-- `sat_clauses` and `to_dnf` list the same clauses in the same order (hence the same set). -/
+theorem to_dnf_eq_sat_clauses {A : Arr} {n : Nat} (h : Red A n) (hn : numVars A = n) (fuel : Nat)
+    (hf : 4 * 2 ^ A.size ≤ fuel) (hf' : (pathsOf A).length < fuel) :
+    ∃ R P, toDnf A fuel = .ok R ∧ pathList A fuel = .ok P ∧ R.map (pvNorm n) = P.map (pvNorm n) := by
+  obtain ⟨R, hR, hRn⟩ := to_dnf_eq_paths h hn fuel hf
+  obtain ⟨hP, hPn, _⟩ := path_iter_eq h hn fuel hf'
+  exact ⟨R, _, hR, hP, by rw [hRn, hPn]⟩
+
+/-- `sat_valuations`: unfolding `BddSatisfyingValuations::next` (the chaining of the path iterator and the
+    clause iterator) from `Bdd::sat_valuations` yields exactly `satSpec A`, without panic — by
+    `sat_valuations_spec` every satisfying valuation exactly once and nothing else. -/
+theorem sat_iter_eq {A : Arr} {n : Nat} (h : Red A n) (hn : numVars A = n) (fuel : Nat)
+    (hf : (satSpec A).length < fuel) :
+    satList A fuel = .ok (satSpec A) := by
+  have h2 := h.size2
+  have hr : root A < A.size := by unfold root; omega
+  have hr0 : root A ≠ 0 := by unfold root; omega
+  have hnorm : (paths A (root A) []).map (pvNorm n) = pathsOf A := by
+    rw [paths_norm h _ hr, pvNorm_nil]; unfold pathsOf; rw [hn]
+  obtain ⟨S, hS, hg, hrem⟩ := pathInit_spec h
+  have hne : remaining A S ≠ [] := by rw [hrem]; exact paths_ne_nil h _ hr hr0 []
+  rcases hg.2 with rfl | ⟨r, rfl⟩
+  · exact absurd rfl hne
+  obtain ⟨S', hnx, hg', hrm⟩ := pathNext_spec h r hg
+  have hntb := remaining_beyond h _ hg (clauseOf A (1 :: r)) (by rw [hrm]; exact List.mem_cons_self)
+  obtain ⟨cv, hnew, hcv⟩ := cvNew_rem (clauseOf A (1 :: r)) n hntb
+  have hspec : satSpec A = satRemaining A S' (extensions (pvNorm n (clauseOf A (1 :: r)))) := by
+    unfold satSpec satRemaining
+    rw [← hnorm, ← hrem, hrm, List.flatMap_map, List.flatMap_cons, hn]
+  unfold satList satInit
+  rw [hS]
+  simp only [hnx, hn, hnew]
+  rw [hspec] at hf ⊢
+  exact collect_satNext h hn (remaining_beyond h) fuel S' cv _ hg' hcv hf
+
+/-- The error branch of `BddPathIterator::next`: a redundant test (both links equal and non-zero) on the
+    stack makes the iterator panic ("The BDD is not canonical.") when it backtracks to it — which is why
+    the theorems above assume `Red` (and the driver accepts this panic only on non-reduced inputs). -/
+theorem path_iter_redundant_panics (A : Arr) (child top : Nat) (rest : List Nat) (nd : Node)
+    (h : A[top]? = some nd) (hl : nd.low = child) (hh : nd.high = child) (h0 : child ≠ 0) :
+    (popLoop A child (top :: rest)).isPanic = true := by
+  simp [popLoop, h, hl, hh, h0, Outcome.isPanic]
+
+/-- The owned iterators give back the Bdd they were made from, whatever number of items has been taken. -/
+theorem owned_returns_bdd (A : Arr) :
+    (∀ s, ownedPathInit A = .ok s → s.intoBdd = A) ∧
+    (∀ s, ownedSatInit A = .ok s → s.intoBdd = A) ∧
+    (∀ k (s : OwnedPath) l s', takeK ownedPathNext k s = .ok (l, s') → s'.intoBdd = s.intoBdd) ∧
+    (∀ k (s : OwnedSat) l s', takeK ownedSatNext k s = .ok (l, s') → s'.intoBdd = s.intoBdd) := by
+  refine ⟨?_, ?_, ?_, ?_⟩
+  · intro s hs
+    unfold ownedPathInit at hs
+    split at hs <;> simp at hs
+    rw [← hs]; rfl
+  · intro s hs
+    unfold ownedSatInit at hs
+    split at hs
+    · rename_i p hp
+      have hpA : p.bdd = A := by
+        unfold ownedPathInit at hp
+        split at hp <;> simp at hp
+        rw [← hp]
+      split at hs
+      · rename_i first p' hp'
+        have := ownedPathNext_bdd _ _ _ hp'
+        split at hs <;> simp at hs
+        rw [← hs]; simp [OwnedSat.intoBdd, OwnedPath.intoBdd, this, hpA]
+      · rename_i p' hp'
+        have := ownedPathNext_bdd _ _ _ hp'
+        simp at hs
+        rw [← hs]; simp [OwnedSat.intoBdd, OwnedPath.intoBdd, this, hpA]
+      all_goals simp at hs
+    all_goals simp at hs
+  · intro k
+    induction k with
+    | zero => intro s l s' hk; simp [takeK] at hk; rw [hk.2]
+    | succ k ih =>
+      intro s l s' hk
+      simp only [takeK] at hk
+      split at hk
+      · rename_i s1 h1
+        simp at hk; rw [← hk.2]
+        exact ownedPathNext_bdd _ _ _ h1
+      · rename_i a s1 h1
+        split at hk
+        · rename_i l2 s2 h2
+          simp at hk; rw [← hk.2, ih _ _ _ h2]
+          exact ownedPathNext_bdd _ _ _ h1
+        all_goals simp at hk
+      all_goals simp at hk
+  · intro k
+    induction k with
+    | zero => intro s l s' hk; simp [takeK] at hk; rw [hk.2]
+    | succ k ih =>
+      intro s l s' hk
+      simp only [takeK] at hk
+      split at hk
+      · rename_i s1 h1
+        simp at hk; rw [← hk.2]
+        exact ownedSatNext_bdd _ _ _ h1
+      · rename_i a s1 h1
+        split at hk
+        · rename_i l2 s2 h2
+          simp at hk; rw [← hk.2, ih _ _ _ h2]
+          exact ownedSatNext_bdd _ _ _ h1
+        all_goals simp at hk
+      all_goals simp at hk
+
+/-- The owned iterators yield the same sequences as the borrowed ones (the code is a copy). -/
+theorem owned_same_sequences (A : Arr) (fuel : Nat) :
+    (match ownedPathInit A with
+      | .ok st => collect ownedPathNext fuel st | .err m => .err m | .panic m => .panic m) = pathList A fuel ∧
+    (match ownedSatInit A with
+      | .ok st => collect ownedSatNext fuel st | .err m => .err m | .panic m => .panic m) = satList A fuel := by
+  constructor
+  · unfold ownedPathInit pathList
+    cases pathInit A with
+    | ok S => exact collect_ownedPathNext A fuel S
+    | err m => rfl
+    | panic m => rfl
+  · unfold ownedSatInit satList satInit ownedPathInit
+    cases pathInit A with
+    | ok S =>
+      simp only [ownedPathNext]
+      cases pathNext A S with
+      | ok x =>
+        obtain ⟨r, S'⟩ := x
+        cases r with
+        | none => exact collect_ownedSatNext A fuel S' cvEmpty
+        | some c =>
+          simp only []
+          cases cvNew c (numVars A) with
+          | ok cv => exact collect_ownedSatNext A fuel S' cv
+          | err m => rfl
+          | panic m => rfl
+      | err m => rfl
+      | panic m => rfl
+    | err m => rfl
+    | panic m => rfl
+
+/-- The constant false (the one-node array, the only diagram that is not `Red`): every enumeration is empty,
+    and so is the specification. -/
+theorem false_constant (A : Arr) (h : A.size = 1) (fuel : Nat) :
+    pathList A (fuel + 1) = .ok [] ∧ satList A (fuel + 1) = .ok [] ∧ toDnf A (fuel + 1) = .ok [] ∧
+    pathsOf A = [] ∧ satSpec A = [] ∧ ∀ v, den A v = false := by
+  have hr : root A = 0 := by unfold root; omega
+  refine ⟨?_, ?_, ?_, ?_, ?_, ?_⟩
+  · simp [pathList, pathInit, h, collect, pathNext]
+  · simp [satList, satInit, pathInit, h, pathNext, collect, satNext, cvNext, cvEmpty]
+  · unfold toDnf; rw [hr, dnfLoop_zero, dnfLoop_nil]
+  · unfold pathsOf; rw [hr, paths_zero]
+  · unfold satSpec pathsOf; rw [hr, paths_zero]; rfl
+  · intro v; unfold den; rw [hr, ev_zero]
+
+/-! ## Non-vacuity: the hypotheses hold on a concrete non-trivial diagram -/
+
+/-- `(x0 ∧ ¬x2) ∨ (¬x0 ∧ x1)` over 4 variables (x3 untested: a skipped level), 5 nodes -/
+def exA : Arr := #[⟨4, 0, 0⟩, ⟨4, 1, 1⟩, ⟨2, 1, 0⟩, ⟨1, 0, 1⟩, ⟨0, 3, 2⟩]
+
+theorem exA_red : Red exA 4 := redB_sound (by decide)
+
+example : pathsOf exA = [[some false, some true, none, none], [some true, none, some false, none]] := by decide
+example : (satSpec exA).length = 8 := by decide
+example := paths_partition_root exA_red rfl
+example := sat_valuations_spec exA_red rfl
+example : pathList exA 3 = .ok (paths exA (root exA) []) := (path_iter_eq exA_red rfl 3 (by decide)).1
+example : paths exA (root exA) [] = [[some false, some true], [some true, none, some false]] := by decide
+example : (pathList exA 3).toOption = some [[some false, some true], [some true, none, some false]] := by decide
+example : satList exA 9 = .ok (satSpec exA) := sat_iter_eq exA_red rfl 9 (by decide)
+example : (toDnf exA 20).toOption = some [[some false, some true], [some true, none, some false]] := by decide
+example := to_dnf_eq_sat_clauses exA_red rfl 128 (by decide) (by decide)
+/-- a clause with a `false` beyond `num_vars` is accepted, one with a `true` there panics -/
+example : NoTrueBeyond 2 [some true, none, some false] := by
+  intro j hj
+  match j, hj with
+  | 2, _ => simp [pvGet]
+  | j + 3, _ => simp [pvGet]
+example : (cvNew [some true, none, some true] 2).isPanic = true := by decide
+example : extensions [some true, none, none] = [[true, false, false], [true, true, false], [true, false, true], [true, true, true]] := by
+  decide
+example := val_next_spec [some true, none] 3 [true, true, false] (by decide)
+
 end B.Props.C08
